@@ -673,6 +673,149 @@ func (p *pkgInfo) translateFunc(name string) string {
 }
 
 // ---------------------------------------------------------------------------
+// 2b. cursor loops of memUvarintReader: `for { b := S[C]; C++; if b < lastByte { ...return }; ... }`
+// The receiver's fields r.S / r.C and their local copies S / C are one slice and
+// one cursor; the generated function takes the slice and the cursor and returns
+// the results together with the new cursor.  S[C] out of range is a Go panic.
+// ---------------------------------------------------------------------------
+
+func (p *pkgInfo) translateCursorLoop(key string) string {
+	fd, ok := p.funcs[key]
+	if !ok {
+		fail("function %s not found in the source", key)
+	}
+	t := &fnTr{p: p, fd: fd, bools: map[string]bool{}}
+	if fd.Type.Results != nil {
+		for _, f := range fd.Type.Results.List {
+			if isErrorType(f.Type) {
+				t.hasErr = true
+			}
+		}
+	}
+	recv := ""
+	if fd.Recv != nil && len(fd.Recv.List) > 0 && len(fd.Recv.List[0].Names) > 0 {
+		recv = fd.Recv.List[0].Names[0].Name
+	}
+	isCursor := func(e ast.Expr) bool { // C or r.C
+		if id, ok := e.(*ast.Ident); ok {
+			return id.Name == "C"
+		}
+		if se, ok := e.(*ast.SelectorExpr); ok {
+			if id, ok := se.X.(*ast.Ident); ok && id.Name == recv {
+				return se.Sel.Name == "C"
+			}
+		}
+		return false
+	}
+	isSlice := func(e ast.Expr) bool { // S or r.S
+		if id, ok := e.(*ast.Ident); ok {
+			return id.Name == "S"
+		}
+		if se, ok := e.(*ast.SelectorExpr); ok {
+			if id, ok := se.X.(*ast.Ident); ok && id.Name == recv {
+				return se.Sel.Name == "S"
+			}
+		}
+		return false
+	}
+	var state []string // loop-carried numeric variables besides the cursor, in declaration order
+	var loop *ast.ForStmt
+	for _, st := range fd.Body.List {
+		switch x := st.(type) {
+		case *ast.DeclStmt:
+			for _, sp := range x.Decl.(*ast.GenDecl).Specs {
+				vs := sp.(*ast.ValueSpec)
+				for i, n := range vs.Names {
+					if i < len(vs.Values) && (isCursor(vs.Values[i]) || isSlice(vs.Values[i])) {
+						continue // var C = r.C / var S = r.S
+					}
+					if i < len(vs.Values) {
+						t.unsupported(st, "initialised declaration before the cursor loop")
+					}
+					state = append(state, n.Name)
+				}
+			}
+		case *ast.ForStmt:
+			if x.Init != nil || x.Cond != nil || x.Post != nil || loop != nil {
+				t.unsupported(st, "loop shape")
+			}
+			loop = x
+		default:
+			t.unsupported(st, "statement outside the cursor loop")
+		}
+	}
+	if loop == nil {
+		t.unsupported(fd, "function without `for { }` loop")
+	}
+	var params, args string
+	for _, v := range state {
+		params += " (v_" + v + " : N)"
+		args += " v_" + v
+	}
+	fname := "g_" + coqName(key)
+	// statements of the loop body in continuation-passing style
+	var body func(stmts []ast.Stmt) string
+	retOf := func(r *ast.ReturnStmt) string {
+		res := r.Results
+		if t.hasErr && len(res) > 0 {
+			last := res[len(res)-1]
+			if id, ok := last.(*ast.Ident); !ok || id.Name != "nil" {
+				return "Err"
+			}
+			res = res[:len(res)-1]
+		}
+		parts := []string{}
+		for _, e := range res {
+			parts = append(parts, t.value(e))
+		}
+		parts = append(parts, "v_C")
+		if len(parts) == 1 {
+			return "Ok v_C"
+		}
+		return "Ok (" + strings.Join(parts, ", ") + ")"
+	}
+	body = func(stmts []ast.Stmt) string {
+		if len(stmts) == 0 {
+			return "(" + fname + "_loop f v_S v_C" + args + ")"
+		}
+		st, rest := stmts[0], stmts[1:]
+		switch x := st.(type) {
+		case *ast.AssignStmt:
+			if len(x.Lhs) == 1 && len(x.Rhs) == 1 {
+				if ie, ok := x.Rhs[0].(*ast.IndexExpr); ok && isSlice(ie.X) && isCursor(ie.Index) && x.Tok == token.DEFINE {
+					id := x.Lhs[0].(*ast.Ident)
+					return "(match nthN v_S (N.to_nat v_C) with None => Panic | Some v_" + id.Name + " => " + body(rest) + " end)"
+				}
+				if isCursor(x.Lhs[0]) && isCursor(x.Rhs[0]) {
+					return body(rest) // r.C = C
+				}
+			}
+			return "(" + t.assign(st) + body(rest) + ")"
+		case *ast.IncDecStmt:
+			if isCursor(x.X) && x.Tok == token.INC {
+				return "(let v_C := wrap64 (v_C + 1) in " + body(rest) + ")"
+			}
+			return "(" + t.assign(st) + body(rest) + ")"
+		case *ast.ReturnStmt:
+			return retOf(x)
+		case *ast.IfStmt:
+			if x.Init != nil || x.Else != nil || !returns(x.Body.List) {
+				t.unsupported(st, "if inside the cursor loop (needs a returning body, no else)")
+			}
+			return "(if " + t.boolean(x.Cond) + " then " + body(x.Body.List) + " else " + body(rest) + ")"
+		}
+		t.unsupported(st, "statement inside the cursor loop")
+		return ""
+	}
+	inits := ""
+	for range state {
+		inits += " 0"
+	}
+	return fmt.Sprintf("(* %s *)\nFixpoint %s_loop (fuel : nat) (v_S : list N) (v_C : N)%s {struct fuel} :=\n  match fuel with\n  | O => OutOfFuel\n  | S f => %s\n  end.\nDefinition %s (v_S : list N) (v_C : N) := %s_loop (S (length v_S)) v_S v_C%s.\n",
+		fset.Position(fd.Pos()), fname, params, body(loop.Body.List), fname, fname, inits)
+}
+
+// ---------------------------------------------------------------------------
 // 3. lock skeletons
 // ---------------------------------------------------------------------------
 
@@ -1182,6 +1325,10 @@ func main() {
 	}
 	for _, f := range pure {
 		b.WriteString(p.translateFunc(f) + "\n")
+	}
+	b.WriteString("(* ---- 2b. cursor loops ---- *)\n")
+	for _, f := range []string{"memUvarintReader.ReadUvarint", "memUvarintReader.SkipUvarint"} {
+		b.WriteString(p.translateCursorLoop(f) + "\n")
 	}
 	b.WriteString("(* ---- 3. lock skeletons ---- *)\n")
 	var keys []string
